@@ -73,12 +73,12 @@ PROPS = {
         state_measure="digest of the saved content per round",
         assumptions=[ROCKS_ASSUMPTION,
                      "write batches are atomic (the property says so); a process crash keeps every completed write, a power loss keeps a prefix of the write log not shorter than the last Flush",
-                     "cancelling the context of SaveChanges is not explored: the spawned writer cannot be joined and select chooses among ready cases pseudo-randomly, so the outcome is not a function of the seed (DESIGN.md section 5, C04)"],
+                     "cancelling the context of SaveChanges is not explored here (sequential engine); abandoned saves are explored and judged under the task scheduler by C16"],
     ),
     "C05": mpt(
         level="fault_enumeration",
-        quick=dict(runs=16000, budget_s=90), thorough=dict(runs=1200000, budget_s=1500),
-        rule="multi-round histories as in C04 (2-8 rounds; small value domain so that delete-then-recreate of byte-identical content is common inside a round across sibling transactions and across rounds; rare long runs of 40-80 rounds accumulate > 1000 dead nodes so that prune issues several delete batches) with PruneBelowVersion(v) for v from below the first to above the last round, interleaved with further rounds. Oracle 1: for every round r the recorded dead set D_r is disjoint from the node set reachable (harness walk over the persistent store) from the root of r and of every later round. Oracle 2: after prune(v), and for EVERY prefix of the prune's write stream (crash inside prune) and again after re-running prune on the crashed disk: every root saved at a version >= v reads completely with its original content from the persistent store alone; every deleted node key was recorded dead by a round < v; after a completed prune the records of rounds < v are gone. evaluations = histories; crash_points = crash states explored",
+        quick=dict(runs=40000, budget_s=90), thorough=dict(runs=1200000, budget_s=1500),
+        rule="multi-round histories as in C04 (2-8 rounds; 1 in 10 transactions is followed by a mid-round save that records the dead nodes of that moment, the round's final save records again; small value domain so that delete-then-recreate of byte-identical content is common inside a round across sibling transactions and across rounds; rare long runs of 40-80 rounds accumulate > 1000 dead nodes so that prune issues several delete batches) with PruneBelowVersion(v) for v from below the first to above the last round, interleaved with further rounds. Oracle 1: for every round r the recorded dead set D_r is disjoint from the node set reachable (harness walk over the persistent store) from the root of r and of every later round. Oracle 2: after prune(v), and for EVERY prefix of the prune's write stream (crash inside prune) and again after re-running prune on the crashed disk: every root saved at a version >= v reads completely with its original content from the persistent store alone; every deleted node key was recorded dead by a round < v; after a completed prune the records of rounds < v are gone. evaluations = histories; crash_points = crash states explored",
         state_measure="digest of the saved content per round",
         assumptions=[ROCKS_ASSUMPTION, "pruning runs against saved state (all executed rounds are saved before a prune); batches are atomic"],
     ),
@@ -150,7 +150,7 @@ PROPS = {
         quick=dict(runs=10000, race_runs=3500, budget_s=50), thorough=dict(runs=800000, race_runs=250000, budget_s=1500),
         rule="an instrumented copy of the current tree (yield points in merkle_patricia_trie.go, mpt_nodedb.go, mpt_node_change.go; every Lock/RLock/Unlock module-wide routed through the scheduler, the real mutexes stay the only lock state). Setup: a trie on a memory / layered / memory-over-persistent store with 0-4 entries over a pool of 2-4 paths (prefixes of one another); in 1/5 of the runs reachable nodes are then removed from the store (node loss) and the run continues on a fresh trie object. Scheduled phase: 2-4 tasks with 2-6 operations each on the SAME trie: Insert (unique values), Delete, GetNodeValueRaw, Iterate, GetChanges/GetDeletes/GetChangeCount, GetMissingNodeKeys, HasMissingNodes, SaveChanges to a PNodeDB, GetRoot. Oracles: (a) the history (invoke/return stamped with the scheduler's event sequence) plus a final read-all is checked with porcupine against a sequential map model (Illegal = violation, Unknown = inconclusive, counted, never reported); (b) the final root equals the independent root of the final content; (c) -race build under the same seeded schedules: any report inside the module is a violation; (d) no panic, no deadlock; lossy runs: reads never return a wrong value. Non-trivial: >= 1 context switch",
         state_measure="distinct interleavings: digest of the task chosen at every scheduler decision with more than one enabled task (+ total steps)",
-        assumptions=[ROCKS_ASSUMPTION, "goroutines the code spawns itself (SaveChanges' writer) are not scheduled tasks: they run while their parent waits and every other task is parked", "writer preference of sync.RWMutex is not modelled (more schedules than the runtime allows, none that a correct program may exclude)"],
+        assumptions=[ROCKS_ASSUMPTION, "goroutines the code spawns in the anchored files (SaveChanges' writer) are scheduled tasks of their own (simrt.Go), blocking selects there are polling loops that try their cases in source order; goroutines spawned elsewhere in the module run unscheduled while their parent waits", "writer preference of sync.RWMutex is not modelled (more schedules than the runtime allows, none that a correct program may exclude)"],
     ),
     "C20": dict(
         level="exploration", components=SCHED_COMPONENTS("core/logging MemLogger/MemCore + real zap"), sched=True, race=True, env={"GOMAXPROCS": "1"},
@@ -172,8 +172,10 @@ PROPS = {
 # What the mutant waves added (DESIGN.md section 16.5); appended to the rules so that evidence files say what ran.
 TREE_EXTRA = ("Store kinds: memory, level(mem,mem), level(mem,persistent), persistent, and level(persistent,persistent) = what a rebase "
               "after a save produces. Path lengths up to 256 hex characters. 1 in 700 runs stores values 0-700 bytes (biased to the last dozen) "
-              "below util.MPTMaxAllowableNodeSize, the largest value Insert accepts.")
-ROUND_EXTRA = ("C04 only: 1 in 10 transactions is followed by a mid-round SaveChanges of the block's trie; the root saved then must still be complete on the store after the round's final save. 1 in 120 runs has one round that inserts 200-500 keys (more nodes than the 256-node batch size); 1 in 15 runs uses sparse round "
+              "below util.MPTMaxAllowableNodeSize, the largest value Insert accepts. Content is read through the trie under test, through "
+              "throw-away trie objects on the same store (half of the runs) or through util.CloneMPT (1 in 8); in a third of the runs the reads "
+              "alternate between Iterate over value nodes, Iterate over all node types and IterateFrom(root).")
+ROUND_EXTRA = ("1 in 10 transactions is followed by a mid-round SaveChanges of the block's trie (C04: the root saved then must still be complete on the store after the round's final save; C05: the dead nodes of that moment are recorded, and recorded again by the final save). 1 in 120 runs has one round that inserts 200-500 keys (more nodes than the 256-node batch size); 1 in 15 runs uses sparse round "
                "numbers whose low bits repeat (jumps of 2^16 / 2^32 / 2^48); 1 in 10 rounds contains a 'sync': the complete state of the previous "
                "round is merged into the block's trie from a separate store (MergeDB back to the previous root).")
 CACHE_EXTRA = ("Value kinds: mutable byte values, trie nodes (C07), and the package's immutable statecache.String (1 in 5 runs); 1 in 8 runs draws "
@@ -188,13 +190,13 @@ ADDENDA = {
     "C06": CACHE_EXTRA + " Long chains (1 in 40 runs) write through block caches and transactions (set, remove, set-and-remove) and read at the tip as well.",
     "C07": CACHE_EXTRA,
     "C08": "1 in 12 runs starts from a committed chain of 200-215 blocks that all wrote k0 (the 200-entry per-key version table is full), with the concurrent lookups near the tip.",
-    "C09": "Value lengths 1-8 bytes, and 31-1000 bytes with the distinguishing bytes at the end (1 in 6 values); 1 in 120 runs commits 150-450 keys at once.",
+    "C09": "Value lengths 1-8 bytes, and 31-1000 bytes with the distinguishing bytes at the end (1 in 6 values); 1 in 120 runs commits 150-450 keys at once. 1 in 8 runs of C09/C11/C13 uses a twin-subtree key pool (2-3 prefixes x 2-3 tails, values a function of the tail: byte-identical subtrees at different positions).",
     "C10": "1 in 6 runs a key owner stores a value that embeds the hash of a value node of their choosing (as its last 32 bytes, or as the first of sixteen 32-byte slots); tamperings additionally: 'retype' (an inner node presented as a value node) and 'leafas' (a leaf presented as a short node or branch, with the chosen node appended below the end of the key path).",
-    "C11": "Half of the non-collapsing (level 64) commits hold their batch back: it is written only after the next Commit() has run, in order (Commit hands the batch to the caller). 1 in 120 runs commits 150-450 keys at once.",
+    "C11": "Half of the non-collapsing (level 64) commits hold their batch back: it is written only after the next Commit() has run, in order (Commit hands the batch to the caller). 1 in 120 runs commits 150-450 keys at once. 1 in 8 runs of C09/C11/C13 uses a twin-subtree key pool (2-3 prefixes x 2-3 tails, values a function of the tail: byte-identical subtrees at different positions).",
     "C12": "1 in 120 runs has 150-450 keys; 1 in 3000 runs exports every key of a trie with 56000-70000 keys (more than 2^17 nodes).",
-    "C13": "The harness executes every history (further commits and collector passes under an abandoned checkpoint included) and only JUDGES a rollback inside the quantifier's window (exactly one commit, at most one collector pass since the latest SaveRoot). Half of the runs are round-structured: optional SaveRoot, a batch (random changes / return to exactly the checkpoint's content / delete everything / empty), commit, 0-2 collector passes, optional rollback. 1 in 120 runs commits 150-450 keys at once.",
+    "C13": "The harness executes every history (further commits and collector passes under an abandoned checkpoint included) and only JUDGES a rollback inside the quantifier's window (exactly one commit, at most one collector pass since the latest SaveRoot). Half of the runs are round-structured: optional SaveRoot, a batch (random changes / return to exactly the checkpoint's content / delete everything / empty), commit, 0-2 collector passes, optional rollback. 1 in 120 runs commits 150-450 keys at once. 1 in 8 runs of C09/C11/C13 uses a twin-subtree key pool (2-3 prefixes x 2-3 tails, values a function of the tail: byte-identical subtrees at different positions). 1 in 1000 runs steers a commit to an exact number of new storage keys (128..2048) by repeating checkpoint / commit of n new keys / rollback with n adjusted by feedback; every rollback on the way is judged.",
     "C15": "Message-level operators additionally: pairs.collapse (a whole subtree of a pre-order export replaced by a hash reference claiming the same hash and weight) and pairs.rekind (a node replaced by a node of another kind claiming the same hash).",
-    "C16": "Task operations additionally: a child trie opened on the shared trie, one insert, MergeMPTChanges (atomic put or rejected); MergeDB of a separately built trie (porcupine 'setall'); Validate/GetNodeDB/GetVersion; SaveChanges with an already cancelled context, after which the task waits for the abandoned writer goroutine through a pipe the race detector cannot see (simrt.Opaque) and goes on.",
+    "C16": "Task operations additionally: a child trie opened on the shared trie, one insert, MergeMPTChanges (atomic put or rejected); MergeDB of a separately built trie (porcupine 'setall'); Validate/GetNodeDB/GetVersion; SaveChanges with an already cancelled context: it returns at once and the task goes on while the abandoned writer goroutine, a scheduled task of its own, still has to write. 1 in 7 runs is a judged-saves run (writes, lookups, saves and abandoned saves only): every save writes into a store of its own, and after the run the nodes found there must make up the complete trie of a root that was current at some moment between that save's call and its return.",
 }
 for _k, _t in ADDENDA.items():
     PROPS[_k]["rule"] = PROPS[_k]["rule"] + " " + _t
